@@ -89,7 +89,7 @@ fn run_case(case: &Value, dirs: &[PathBuf; 2], world: &mut World) -> Option<Valu
     watcher.watch_directory(dirs[0].clone(), Interest::ALL, Recursive::No).expect("watch");
     watcher.watch_directory(dirs[1].clone(), Interest::ALL, Recursive::No).expect("watch");
     let recs = case["recs"].as_array().cloned().unwrap_or_default();
-    let cuts: Vec<usize> = case["cuts"].as_array().map(|a| a.iter().filter_map(Value::as_u64).map(|x| x as usize).collect()).unwrap_or_default();
+    let mut cuts: Vec<usize> = case["cuts"].as_array().map(|a| a.iter().filter_map(Value::as_u64).map(|x| x as usize).collect()).unwrap_or_default();
     let fin = case["final"].as_str().unwrap_or("eof");
     let retain = case["retain"].as_bool().unwrap_or(false);
     let expected = case["yields"].as_array().cloned().unwrap_or_default();
@@ -175,15 +175,27 @@ fn run_case(case: &Value, dirs: &[PathBuf; 2], world: &mut World) -> Option<Valu
                     };
                     let (addr, len, ud) = (req.sqe.addr() as usize, req.sqe.len() as usize, req.sqe.user_data());
                     if batch < cuts.len() {
+                        // The kernel returns as many whole records as fit into the buffer; what does
+                        // not fit is returned by the next read.
                         let mut bytes = Vec::new();
+                        let mut taken = 0;
                         for r in &recs[next_rec..next_rec + cuts[batch]] {
-                            bytes.extend_from_slice(&record_bytes(r));
+                            let rb = record_bytes(r);
+                            if bytes.len() + rb.len() > len {
+                                break;
+                            }
+                            bytes.extend_from_slice(&rb);
+                            taken += 1;
                         }
-                        next_rec += cuts[batch];
-                        batch += 1;
-                        if bytes.len() > len {
-                            result = Some(json!({"field": "read buffer too small for the batch", "expected": bytes.len(), "observed": len}));
+                        if taken == 0 {
+                            result = Some(json!({"field": "read buffer too small for a single record", "expected": record_bytes(&recs[next_rec]).len(), "observed": len}));
                             break 'outer;
+                        }
+                        next_rec += taken;
+                        if taken == cuts[batch] {
+                            batch += 1;
+                        } else {
+                            cuts[batch] -= taken;
                         }
                         unsafe { (addr as *mut u8).copy_from_nonoverlapping(bytes.as_ptr(), bytes.len()) };
                         // Bytes after the records are not the kernel's: poison them.
